@@ -1,6 +1,6 @@
 ---- MODULE SubjectTraceMC ----
 EXTENDS SubjectTrace
-AnyScript == Seq([k : {"unsub", "mute", "unmute", "inval", "sub", "notify"}, t : 0..120])   \* only ever tested for membership
+AnyScript == Seq([k : {"unsub", "mute", "unmute", "inval", "sub", "notify", "throw"}, t : 0..120])   \* only ever tested for membership
 NoOrder == <<>>
 AllOps == {"Subscribe", "SubscribeMuted", "UnsubF", "UnsubH", "UnsubS", "Mute", "Unmute", "Invalidate", "Swap", "Notify"}
 ====
